@@ -38,7 +38,7 @@ func hSymFilter(tag string, asked *[]hLabel, answers *[]bool) FilterFunc {
 				ni = i
 			}
 		}
-		for i, s := range []string{"", "s", "t"} {
+		for i, s := range []string{"", "s", "S"} {
 			if s == l.Sub {
 				si = i
 			}
@@ -70,8 +70,12 @@ func hAnswer(asked []hLabel, answers []bool, l hLabel) (bool, bool) {
 func HarnessC08(fam, nT, nV, convCode, form, filt int) {
 	hOrderSites(0)
 	w := hTemplate(fam, nT, nV, convCode, form, 0)
-	// the target also produces an output so that the output filter has a subject
-	w.Target.Out = []hLabel{{T: hTP2}}
+	// the target also produces outputs so that the output filter has subjects, and
+	// (symbolically) declares a final error, which is not an output
+	w.Target.Out = []hLabel{{T: hTP2}, {T: hTP3}}
+	if vnBool("targetHasErr") {
+		w.Target.HasErr = true
+	}
 	// each name denotes a single type
 	nameType := map[string]int{}
 	all := append([]hLabel{}, w.Target.In...)
@@ -119,6 +123,13 @@ func HarnessC08(fam, nT, nV, convCode, form, filt int) {
 	}
 	vnAssert(len(w.Log) == 0, "C08.redefine-executes-nothing")
 	vnCover("C08.redefine-returned")
+	// every output of the target is shown to the output filter
+	if filt >= 2 {
+		for _, o := range w.Target.Out {
+			_, known := hAnswer(askedOut, ansOut, o)
+			vnAssert(known, "C08.every-output-is-filtered")
+		}
+	}
 	// (3) an output rejected by the output filter => error
 	if filt >= 2 {
 		for i, l := range askedOut {
@@ -198,12 +209,43 @@ func HarnessC08(fam, nT, nV, convCode, form, filt int) {
 	vnScheduleRestart()
 	r2 := w.Funcs[0].Call(append(append([]Arg{}, args...), extra...)...)
 	log2 := w.Log
-	if r1.Err() == nil && r2.Err() == nil {
+	// "the original function's own results" are unique only when no parameter has two
+	// compatible sources to choose from (the redefined function resolves its own
+	// parameters too, so its declared inputs count as parameters)
+	var allSrc []hLabel
+	for _, v := range w.Vals {
+		allSrc = append(allSrc, v.L)
+	}
+	for _, v := range extraVals {
+		allSrc = append(allSrc, v.L)
+	}
+	for _, c := range w.Convs {
+		allSrc = append(allSrc, c.Out...)
+	}
+	pars := append(append([]hLabel{}, w.Target.In...), decl...)
+	for _, c := range w.Convs {
+		pars = append(pars, c.In...)
+	}
+	unique := true
+	for _, p := range pars {
+		n := 0
+		for _, s := range allSrc {
+			if hCompat(s, p) {
+				n++
+			}
+		}
+		if n > 1 {
+			unique = false
+		}
+	}
+	if r1.Err() == nil && r2.Err() == nil && unique {
 		vnAssert(r1.Len() == r2.Len(), "C08.same-result-arity")
-		if r1.Len() == 1 && r2.Len() == 1 {
-			t1, id1 := hUnpack(r1.Out(0))
-			t2, id2 := hUnpack(r2.Out(0))
-			vnAssert(t1 == t2 && id1 == id2, "C08.same-results-as-the-original-with-those-values")
+		ids1, ids2 := hResultIDs(r1), hResultIDs(r2)
+		vnAssert(len(ids1) == len(ids2) && len(ids1) == 2, "C08.same-result-shape")
+		if len(ids1) == len(ids2) {
+			for i := range ids1 {
+				vnAssert(ids1[i].T == ids2[i].T && ids1[i].ID == ids2[i].ID, "C08.same-results-as-the-original-with-those-values")
+			}
 		}
 		vnAssert(len(log1) == len(log2), "C08.same-executions-as-the-original")
 		vnCover("C08.redefined-call-checked")
